@@ -290,8 +290,10 @@ def read_env(src, expr, skip_envs=(), tolerance=0, mode=MODE_NON_MATH):
             name, _ = make_read_peek(read_command)(
                 src, 0, 0, skip=1, tolerance=tolerance, mode=mode)
             if name == 'end':
+                # only the first group names the environment; whatever follows
+                # is read again later, so it must not fail the look-ahead
                 _, args = make_read_peek(read_command)(
-                    src, skip=1, tolerance=tolerance, mode=mode)
+                    src, skip=1, tolerance=1, mode=mode)
                 break
         contents.append(read_expr(src, skip_envs=skip_envs, tolerance=tolerance, mode=mode))
     error = not src.hasNext() or not args or \
@@ -302,7 +304,7 @@ def read_env(src, expr, skip_envs=(), tolerance=0, mode=MODE_NON_MATH):
         # consume exactly what the peek matched: \end, spacer, {name}
         src.forward(2)
         read_spacer(src)
-        read_arg(src, next(src))
+        read_arg(src, next(src), tolerance=tolerance)
     expr.append(*contents)
     return expr
 
